@@ -144,6 +144,75 @@ def hooked_shape_array(shape, dtype="float32"):
     return np_array(shape, dtype).view(_hooked_cls[0])
 
 
+_prelude_done = []
+
+
+def hostile_prelude(rec=None):
+    """Legitimate activity that has nothing to do with what a check is about to ask, run once per process before
+    the main workload of SOME shards: whatever a check decides must not depend on it (every property here is
+    stated for every history). Exceptions are swallowed - the prelude only creates a past."""
+    if _prelude_done:
+        return
+    _prelude_done.append(1)
+    import typing
+
+    import jax
+    import typeguard
+
+    import jaxtyping
+    from jaxtyping import Float, PyTree, Shaped, config
+
+    def quiet(thunk):
+        try:
+            return thunk()
+        except BaseException:  # noqa
+            return None
+
+    class _Unflattenable:
+        pass
+
+    def _boom(_):
+        raise RuntimeError("cannot flatten")
+
+    quiet(lambda: jax.tree_util.register_pytree_node(_Unflattenable, _boom, lambda a, c: _Unflattenable()))
+    N = np.ndarray
+    for ctx in (False, True):
+        def acts():
+            quiet(lambda: isinstance([np.zeros(2), _Unflattenable()], PyTree[Float[N, "a"]]))  # flatten raises
+            quiet(lambda: isinstance({1: np.zeros(2), "x": np.zeros(2)}, PyTree[Float[N, "a"]]))  # unsortable keys
+            quiet(lambda: isinstance([], PyTree[Float]))  # misuse: AnnotationError from inside the flatten
+            quiet(lambda: isinstance(np.zeros(2, dtype=np.longlong), Shaped[N, "..."]))  # equal-but-differently-named dtypes
+            quiet(lambda: isinstance(np.zeros(2, dtype=np.ulonglong), jaxtyping.UInt[N, "..."]))
+            quiet(lambda: isinstance([np.zeros((2, 3), "float32"), np.zeros((2, 4), "float32")], PyTree[Float[N, "*#b c"]]))  # later leaf fails
+            quiet(lambda: isinstance({"k": np.zeros(3, "float32")}, PyTree[Float[N, "?q"], "Tprelude"]))
+
+        if ctx:
+            with jaxtyped("context"):
+                acts()
+        else:
+            acts()
+    # a window with checking switched off in which things are built and thrown away
+    quiet(lambda: config.update("jaxtyping_disable", True))
+    try:
+        quiet(lambda: Float[N, "a b"])
+        quiet(lambda: PyTree[Float[N, "a"]])
+        quiet(lambda: jaxtyped(typechecker=typeguard.typechecked)(lambda x: x))
+    finally:
+        config.update("jaxtyping_disable", False)
+    # recursion of one decorated function, three deep, and mutual recursion through a context block
+    ns = {"jaxtyped": jaxtyped, "tc": typeguard.typechecked, "Float": Float, "N": N, "np": np}
+    quiet(lambda: exec_src(
+        "@jaxtyped(typechecker=tc)\n"
+        "def rec(x: Float[N, 'n'], d: int) -> Float[N, 'n']:\n"
+        "    if d:\n"
+        "        with jaxtyped('context'):\n"
+        "            rec(np.zeros(x.shape[0] + 1, 'float32'), d - 1)\n"
+        "    return x\n"
+        "rec(np.zeros(2, 'float32'), 3)\n", ns))
+    if rec is not None:
+        rec.count("hostile_prelude_runs")
+
+
 _jax_cache = {}
 
 
